@@ -430,3 +430,59 @@ def r13_8_lazy_fills_read_no_settable_state(ctx: Ctx) -> RuleResult:
         else:
             rr.ok()
     return rr
+
+
+@rule("C13")
+def r13_9_instance_caches_are_private(ctx: Ctx) -> RuleResult:
+    """A mutable cache held in an instance field (a field whose elements some method assigns: `self.f[k] = v`) is valid for that
+    instance's behaviour only.  Its constructor must create it fresh: a cache fetched from a class-level registry (`REG.get(key)`,
+    `REG.setdefault(key, ...)`, `REG[key]`) is shared by every instance that maps to the same key, and entries written through one
+    instance are trusted by another whose computation differs in something the key leaves out."""
+    rr = RuleResult("R13.9", "mutable caches stored in instance fields are created fresh by the constructor, never handed out from a class-level registry", min_instances=3)
+    M = ctx.M
+    for c in sorted(M.all_classes(), key=lambda x: x.qual):
+        if "_compatibility" in c.mod.rel:
+            continue
+        mutated: set[str] = set()
+        for f in c.all_defs:
+            if isinstance(f.node, ast.Lambda) or f.self_name is None:
+                continue
+            for n in own_nodes(f.node):
+                if isinstance(n, ast.Assign):
+                    for t in n.targets:
+                        if isinstance(t, ast.Subscript) and isinstance(t.value, ast.Attribute) and isinstance(t.value.value, ast.Name) and t.value.value.id == f.self_name:
+                            mutated.add(mangle(c.name, t.value.attr))
+        if not mutated:
+            continue
+        for f in c.all_defs:
+            if isinstance(f.node, ast.Lambda) or f.name not in ("__init__", "_ctor") and not f.name.endswith("__ctor"):
+                continue
+            selfs = {f.self_name} if f.self_name else set()
+            selfs |= {n.targets[0].id for n in own_nodes(f.node) if isinstance(n, ast.Assign) and isinstance(n.targets[0], ast.Name) and isinstance(n.value, ast.Call) and "__new__" in unparse(n.value.func)}
+            for n in own_nodes(f.node):
+                tg = n.targets if isinstance(n, ast.Assign) else [n.target] if isinstance(n, ast.AnnAssign) and n.value is not None else []
+                for t in tg:
+                    if isinstance(t, ast.Attribute) and isinstance(t.value, ast.Name) and t.value.id in selfs and mangle(c.name, t.attr) in mutated:
+                        rr.inst()
+                        from ..kit import inline_locals
+
+                        srcs = [n.value]
+                        if isinstance(n.value, ast.Name):
+                            # every value the local was given (walrus / setdefault chains)
+                            for m in own_nodes(f.node):
+                                if isinstance(m, ast.NamedExpr) and m.target.id == n.value.id:
+                                    srcs.append(m.value)
+                                if isinstance(m, (ast.Assign, ast.AnnAssign)) and getattr(m, "value", None) is not None and any(isinstance(x, ast.Name) and x.id == n.value.id for x in (m.targets if isinstance(m, ast.Assign) else [m.target])):
+                                    srcs.append(m.value)
+                        shared = None
+                        for v in srcs:
+                            for x in ast.walk(v):
+                                if isinstance(x, ast.Call) and isinstance(x.func, ast.Attribute) and x.func.attr in ("get", "setdefault") and isinstance(x.func.value, ast.Attribute) and isinstance(x.func.value.value, ast.Name) and x.func.value.value.id in selfs | {"cls", c.name} and x.func.value.attr.lstrip("_").isupper():
+                                    shared = x
+                                if isinstance(x, ast.Subscript) and isinstance(x.value, ast.Attribute) and x.value.attr.lstrip("_").replace(c.name + "__", "").isupper() and isinstance(x.ctx, ast.Load):
+                                    shared = shared or x
+                        if shared is not None:
+                            rr.fail(f.qual, f"the instance cache `{unparse(t)}` is taken from the class-level registry `{unparse(shared)[:60]}`: instances that share the registry key share (and trust) each other's entries", ctx.loc(f, n))
+                        else:
+                            rr.ok({"class": c.qual, "cache": t.attr})
+    return rr
